@@ -3,3 +3,6 @@ import Glas.Props.C03
 #print axioms Glas.Props.C03.item_suffix_local
 #print axioms Glas.Props.C03.item_prefix_det
 #print axioms Glas.Props.C03.C03_conditional
+#print axioms Glas.Props.C03.glas_mainShape
+#print axioms Glas.Props.C03.runMain_is_items
+#print axioms Glas.Props.C03.C03_module
